@@ -274,8 +274,14 @@ func VerifHarness_C19_siblings() {
 	m1 := &XMLComponent{Name: "M1", MsgType: "D", Members: []*XMLComponentMember{c19Comp("P1", "Y")}}
 	grp := c19Group("F3", "N", c19Comp("P2", "Y"))
 	m2 := &XMLComponent{Name: "M2", MsgType: "E", Members: []*XMLComponentMember{c19Comp("P2", c19Req("M2.P2.required")), grp}}
+	var grp1 *XMLComponentMember
 	if ndBool("group-uses-P1") {
 		grp.Members[0].Name = "P1"
+	} else if ndBool("two-groups-open-with-B") {
+		// two groups (one per message) open with the same component and continue with a member of their own
+		grp.Members = []*XMLComponentMember{c19Comp("B", "Y"), c19Field("F1", "N")}
+		grp1 = c19Group("F7", "N", c19Comp("B", "Y"), c19Field("F6", "N"))
+		m1.Members = append(m1.Members, grp1)
 	}
 	doc := &XMLDoc{Type: "FIX", Major: "4", Minor: "4", Fields: c19Fields(), Components: []*XMLComponent{b, p1, p2}, Messages: []*XMLComponent{m1, m2}}
 	dict, err := new(builder).build(doc)
@@ -288,7 +294,7 @@ func VerifHarness_C19_siblings() {
 		w := &c19Walk{doc: doc, tags: map[int]bool{}, required: map[int]bool{}}
 		var order []int
 		w.members(xm.Members, true, true, &order)
-		for t := 1; t <= 6; t++ {
+		for t := 1; t <= 7; t++ {
 			_, inTags := md.Tags[t]
 			verifAssert(inTags == w.tags[t], "tags-are-exactly-the-reachable-fields")
 			_, isReq := md.RequiredTags[t]
@@ -301,6 +307,16 @@ func VerifHarness_C19_siblings() {
 				}
 			}
 			verifAssert(inFields == isTop, "fields-are-the-top-level-fields")
+		}
+		if mi == 0 && grp1 != nil {
+			gd := md.Fields[7]
+			want := w.groupOrder(grp1)
+			verifAssert(gd != nil && len(gd.Fields) == len(want), "group-members-complete")
+			if gd != nil && len(gd.Fields) == len(want) {
+				for i, f := range gd.Fields {
+					verifAssert(f.Tag() == want[i], "group-members-in-declaration-order-components-expanded")
+				}
+			}
 		}
 		if mi == 1 {
 			gd := md.Fields[3]
